@@ -61,6 +61,12 @@ func paramOf(c pluginCase, u map[string]*corpus.File) string {
 		ps = append(ps, "features=nosuchfeature")
 	case "fast+unknown":
 		ps = append(ps, "features=fast+nosuchfeature")
+	case "unknown+fast":
+		ps = append(ps, "features=nosuchfeature+fast")
+	case "all+unknown":
+		ps = append(ps, "features=all+nosuchfeature")
+	case "unknown+all":
+		ps = append(ps, "features=nosuchfeature+all")
 	case "empty":
 		ps = append(ps, "features=")
 	default:
@@ -76,6 +82,9 @@ func paramOf(c pluginCase, u map[string]*corpus.File) string {
 	}
 	if c.Flag == "unknownflag" {
 		ps = append(ps, "nosuchflag=1")
+	}
+	if c.Flag == "pool" {
+		ps = append(ps, "pool="+corpus.GenPath+"/pa.Msg")
 	}
 	return strings.Join(ps, ",")
 }
